@@ -394,6 +394,7 @@ def _roots(ctx):
 
 
 def explore(ctx):
+    ctx.use_thorough_bounds('thorough bounds take about ten seconds')
     roots = _roots(ctx)
     shs = all_shorthands()
     ctx.bound("shorthands", len(shs))
